@@ -135,6 +135,25 @@ def interp : List (Rat × Rat) → Rat → Rat
     else if x < x1 then y0 + (y1 - y0) * (x - x0) / (x1 - x0)
     else interp ((x1, y1) :: rest) x
 
+/-- last two points of a curve (for the continuation of the last segment) -/
+def lastTwo : List (Rat × Rat) → Option ((Rat × Rat) × (Rat × Rat))
+  | [] => none
+  | [_] => none
+  | [a, b] => some (a, b)
+  | _ :: rest => lastTwo rest
+
+/-- `wntr.network.elements._interp_extrapolate(x, xp, fp)`: `numpy.interp` plus the continuation of the first and of the
+last segment beyond the end points (repaired `Tank.get_volume`, /repo 53f21792); one point or none: as `interp` -/
+def interpX (pts : List (Rat × Rat)) (x : Rat) : Rat :=
+  let y := interp pts x
+  match pts with
+  | (x0, y0) :: (x1, y1) :: _ =>
+    let lo := (if x - x0 < 0 then x - x0 else 0) * (y1 - y0) / (x1 - x0)
+    match lastTwo pts with
+    | some ((xa, ya), (xb, yb)) => y + lo + (if x - xb > 0 then x - xb else 0) * (yb - ya) / (xb - xa)
+    | none => y + lo
+  | _ => y
+
 inductive TankGeom where
   | cyl (diameter : Rat)
   | curve (pts : List (Rat × Rat))
@@ -143,7 +162,7 @@ inductive TankGeom where
 def tankVolume (pi : Rat) (g : TankGeom) (level : Rat) : Rat :=
   match g with
   | .cyl d => pi / 4 * d ^ 2 * level
-  | .curve pts => interp pts level
+  | .curve pts => interpX pts level
 
 /-- tank capacity = stored volume / volume at `max_level` -/
 def tankCapacity (pi : Rat) (g : TankGeom) (maxLevel level : Rat) : Option Rat :=
